@@ -303,7 +303,7 @@ def run_item(it, obj, module, isexpr, full):
 
 
 def record_of(it):
-    rec = {"id": it["id"], "desc": it["desc"], "error": it.get("error"), "slots": it.get("slots", {})}
+    rec = {"id": it["id"], "desc": it["desc"], "error": it.get("error"), "tb": it.get("tb"), "slots": it.get("slots", {})}
     if it.get("error"):
         return rec
     rec.update(roles=[m["role"] for m in it["mts"]],
@@ -327,7 +327,6 @@ def main():
         keys = {(it["pts"].tobytes(), it["wts"].tobytes()) for it in items}
         if len(keys) != len(items) or len(items) > 8:
             raise common.MachineryError("S7: two forms of one module share a quadrature rule")
-        groups = [items]
         try:
             objs, module = compile_module(items, mod["options"], isexpr, f"{job['tag']}-{mi}")
             compiled = [(items, objs, module)]
@@ -345,7 +344,6 @@ def main():
                 except Exception as e:  # noqa: BLE001
                     it["error"] = f"{type(e).__name__}: {str(e)[:300]}"
                     it["tb"] = traceback.format_exc()[-2000:]
-        del groups
         for its, objs, module in compiled:
             for it, obj in zip(its, objs):
                 try:
